@@ -380,6 +380,27 @@ func run(id string, cfg propCfg, mode string, rest []string) int {
 
 	merged := vlib.Stats{Property: id, Labels: map[string]int{}, Counters: map[string]int{}, Known: map[string]int{}, KnownExample: map[string]string{}}
 	nontriv := map[uint64]struct{}{}
+
+	// 3b. native (coverage-guided, byte-level) fuzz campaigns: thorough tier of
+	// C04 only. They cannot be pinned to VERIF_SEED; the saved input is the
+	// reproducible unit. VERIF_NOFUZZ=1 skips them.
+	if id == "C04" && tier == "thorough" && os.Getenv("VERIF_NOFUZZ") == "" {
+		for _, target := range []string{"FuzzC04JSONSchema", "FuzzC04OpenAPI", "FuzzC04CUE"} {
+			execs, crashers, note := runNativeFuzz(target, "60s", scratch)
+			merged.Counters["native_fuzz_execs:"+target] += execs
+			if note != "" {
+				merged.Notes = append(merged.Notes, note)
+			}
+			for _, c := range crashers {
+				dst := filepath.Join(root(), "replays", id, filepath.Base(c))
+				if err := copyFile(c, dst); err != nil {
+					dst = c
+				}
+				violations++
+				violationLines = append(violationLines, fmt.Sprintf("VIOLATION property=%s replay=%s", id, dst))
+			}
+		}
+	}
 	passedTotal := 0
 	for _, r := range results {
 		if r.stats == nil {
@@ -569,6 +590,69 @@ func run(id string, cfg propCfg, mode string, rest []string) int {
 		return 2
 	}
 	return exit
+}
+
+var reFuzzExecs = regexp.MustCompile(`execs: ([0-9]+)`)
+
+// runNativeFuzz runs one `go test -fuzz` campaign on the checks package. A
+// failing target writes a replay file (C04 case format) into outDir itself; a
+// worker that dies without doing so (fatal error) leaves Go's own crasher file,
+// which is converted.
+func runNativeFuzz(target string, fuzztime string, scratch string) (execs int, crashers []string, note string) {
+	outDir := filepath.Join(scratch, "fuzz_"+target)
+	_ = os.MkdirAll(outDir, 0o755)
+	pkgDir := filepath.Join(root(), "harness", "checks")
+	corpus := filepath.Join(pkgDir, "testdata", "fuzz", target)
+	_ = os.RemoveAll(corpus)
+	cmd := exec.Command("go", "test", ".", "-run", "^$", "-fuzz", "^"+target+"$", "-fuzztime", fuzztime, "-test.fuzzcachedir", filepath.Join(scratch, "fuzzcache"))
+	cmd.Dir = pkgDir
+	cmd.Env = goEnv("VERIF_FUZZ_OUT="+outDir, "VERIF_FINDINGS="+filepath.Join(root(), "known_findings.json"))
+	out, err := cmd.CombinedOutput()
+	if m := reFuzzExecs.FindAllStringSubmatch(string(out), -1); len(m) > 0 {
+		execs, _ = strconv.Atoi(m[len(m)-1][1])
+	}
+	written, _ := filepath.Glob(filepath.Join(outDir, "fuzz_*.json"))
+	crashers = append(crashers, written...)
+	if err != nil && len(written) == 0 {
+		// no replay written: the worker died (fatal error / hang); convert Go's crasher files
+		files, _ := filepath.Glob(filepath.Join(corpus, "*"))
+		for _, f := range files {
+			raw, rerr := os.ReadFile(f)
+			if rerr != nil {
+				continue
+			}
+			format := map[string]string{"FuzzC04JSONSchema": "jsonschema", "FuzzC04OpenAPI": "openapi", "FuzzC04CUE": "cue"}[target]
+			replay := map[string]any{"property": "C04", "go_fuzz_corpus_file": string(raw), "case": map[string]any{
+				"inputs":    []map[string]any{{"format": format, "package": "pk", "source": decodeGoFuzzBytes(string(raw))}},
+				"config":    map[string]any{"types": true, "builders": true, "go": map[string]any{"JSON": true, "Validate": true}, "python": map[string]any{}, "java": map[string]any{}, "typescript": map[string]any{}, "php": map[string]any{}},
+				"languages": []string{"go", "jsonschema"},
+			}}
+			enc, _ := json.MarshalIndent(replay, "", " ")
+			dst := filepath.Join(outDir, "fuzz_crasher_"+filepath.Base(f)+".json")
+			if os.WriteFile(dst, enc, 0o644) == nil {
+				crashers = append(crashers, dst)
+			}
+		}
+		if len(crashers) == 0 {
+			note = fmt.Sprintf("native fuzz campaign %s failed without a crasher: %s", target, tail(string(out), 12))
+		}
+	}
+	_ = os.RemoveAll(filepath.Join(pkgDir, "testdata", "fuzz"))
+	return execs, crashers, note
+}
+
+// decodeGoFuzzBytes extracts the []byte("...") literal of a Go fuzz corpus file.
+func decodeGoFuzzBytes(file string) string {
+	i := strings.Index(file, "[]byte(")
+	if i < 0 {
+		return file
+	}
+	lit := strings.TrimSpace(file[i+len("[]byte("):])
+	lit = strings.TrimSuffix(strings.TrimSpace(lit), ")")
+	if s, err := strconv.Unquote(lit); err == nil {
+		return s
+	}
+	return lit
 }
 
 func firstLines(s string, n int) string {
